@@ -75,6 +75,12 @@ pub trait Property: Sync + Send {
     fn timeout_s(&self) -> u64 {
         40
     }
+    /// The property is itself about run-to-run reproducibility of the code under
+    /// test: a violation is an observed difference between two executions, so its
+    /// replay reproduces the violation class, not necessarily the same detail.
+    fn violation_is_nondeterminism(&self) -> bool {
+        false
+    }
 }
 
 pub fn all() -> Vec<Box<dyn Property>> {
